@@ -47,13 +47,26 @@ def payload(seed, idx, size, kind):
         c += 1
     return bytes(out[:size])
 fds = {1: sys.stdout.buffer, 2: sys.stderr.buffer}
-for idx, (stream, size, kind, flush) in enumerate(plan["blocks"]):
+blocks = list(enumerate(plan["blocks"]))
+late = blocks.pop() if (plan.get("late_last") and blocks) else None
+def emit(idx, stream, size, kind, flush):
     p = payload(plan["seed"], idx, size, kind)
     f = fds[stream]
     f.write(MAGIC + struct.pack(">BIQ", stream, idx, size) + p)
     if flush:
         f.flush()
+for idx, (stream, size, kind, flush) in blocks:
+    emit(idx, stream, size, kind, flush)
 sys.stdout.buffer.flush(); sys.stderr.buffer.flush()
+if late is not None:
+    # a helper that outlives the command's main process and still holds its stdout / stderr writes the last block later
+    import time
+    if os.fork() == 0:
+        time.sleep(0.3)
+        emit(late[0], late[1][0], late[1][1], late[1][2], True)
+        sys.stdout.buffer.flush(); sys.stderr.buffer.flush()
+        os._exit(0)
+    os._exit(plan.get("exit", 0))
 sys.exit(plan.get("exit", 0))
 '''
 
@@ -121,7 +134,8 @@ def scenario(rng, k, mode):
     ambient = {"COND_SLOT": str(k % 3), "COND_NAME": "outer", "COND_OUT": "/nonexistent/outer.task"} if k % 5 in (2, 3) else {}
     # the command may FAIL after having written its output: the logs are exact all the same (the records are not required then)
     code = rng.choice([0, 0, 0, 3, 1, 128])
-    return {"k": k, "mode": mode, "plan": {"seed": k, "blocks": blocks, "exit": code}, "args": args, "opts": opts, "ambient": ambient}
+    return {"k": k, "mode": mode, "plan": {"seed": k, "blocks": blocks, "exit": code, "late_last": k % 6 in (1, 4)}, "args": args, "opts": opts,
+            "ambient": ambient}
 
 
 def pyrepr(v):
@@ -149,6 +163,9 @@ def worker(scn):
             f.write(src)
         argv = ["run", "//:e"] + (["-j", "2"] if par else [])
         r = C.fork_map(lambda _: CLI.run_cli(root, argv, clock=100, env=dict(scn.get("ambient") or {}, CV_PLAN=plan_path)), [0], nproc=1, timeout=900)[0]
+        if scn["plan"].get("late_last"):
+            import time
+            time.sleep(0.6)      # in a parallel slot the helper writes straight into the log file, after `cond` has returned
         out_dir = os.path.join(root, "cond-out", "e.task.100")
         res = {"status": r.get("status") if isinstance(r, dict) else None, "err": str(r)[:300] if not isinstance(r, dict) else ""}
 
